@@ -37,19 +37,19 @@ LitStyle(s, i, j) ==
      [] s = 5 -> [neg |-> "~", at |-> FALSE, lim |-> TRUE]
 RenderLit(l, st) == (IF l.neg THEN <<st.neg>> ELSE <<>>) \o (IF st.at THEN <<"@">> ELSE <<>>) \o l.name
                     \o (IF st.lim THEN <<":">> \o LimitOf(l.name) ELSE <<>>)
-RenderGroup(f, i, s) == JoinBy([j \in DOMAIN f[i] |-> RenderLit(f[i][j], LitStyle(s, i, j))], <<",">>)
-RenderArgs(f, s) == [i \in DOMAIN f |-> RenderGroup(f, i, s)]
-StrIn(f, s)  == TextIn(JoinBy(RenderArgs(f, s), <<" ">>))
-LstIn(f, s)  == ListIn(RenderArgs(f, s))
+RenderGroup(x, i, s) == JoinBy([j \in DOMAIN x[i] |-> RenderLit(x[i][j], LitStyle(s, i, j))], <<",">>)
+RenderArgs(x, s) == [i \in DOMAIN x |-> RenderGroup(x, i, s)]
+StrIn(x, s)  == TextIn(JoinBy(RenderArgs(x, s), <<" ">>))
+LstIn(x, s)  == ListIn(RenderArgs(x, s))
 V1Inputs(x) == {StrIn(x, s) : s \in Styles} \cup {LstIn(x, s) : s \in Styles}
 
 \* mixed texts: the old-style arguments of a formula with a negated literal, glued with new-style operators
-HasNeg(f) == \E i \in DOMAIN f : \E j \in DOMAIN f[i] : f[i][j].neg
+HasNeg(x) == \E i \in DOMAIN x : \E j \in DOMAIN x[i] : x[i][j].neg
 And_ == <<" ", "a", "n", "d", " ">>
 Or_  == <<" ", "o", "r", " ">>
 Not_ == <<"n", "o", "t", " ">>
-MixedInputs(f, s) ==
-   LET args == RenderArgs(f, s) IN
+MixedInputs(x, s) ==
+   LET args == RenderArgs(x, s) IN
    { TextIn(JoinBy(args, And_) \o Or_ \o <<"b">>),                           \* g1 and g2 or b
      TextIn(Not_ \o JoinBy(args, <<" ">>)),                                   \* not g1 g2
      TextIn(<<"(">> \o JoinBy(args, Or_) \o <<")">> \o And_ \o <<"a">>),      \* (g1 or g2) and a
@@ -104,14 +104,17 @@ Classes == /\ OnCnf(LET want == Ok(CnfTT(f, SS)) IN \A in \in V1Inputs(f) : ~IsM
            /\ OnV2(\A in \in V2Inputs(t) : IsPureV2(in) => ~IsMixed(in))
            /\ OnCnf(HasNeg(f) => \A s \in MixedStyles : \A in \in MixedInputs(f, s) : ~IsPureV1(in) /\ ~IsPureV2(in))
 
-\* ---------------------------------------------------------------- witnesses of the named exceptions (smallest formulas only)
+\* ---------------------------------------------------------------- witnesses of the named exceptions (smallest formulas only):
+\* inputs on which the strict law (the invariant above without its exception) fails on the transcription of the code
 Size(x) == Len(Flat(x))
 Witness ==
    /\ OnCnf(Size(f) <= 2 =>
-         /\ LET want == Ok(CnfTT(f, SS)) IN \A in \in V1Inputs(f) : AutoRun(in, SS) # want => PrintT(<<"KFHIT", "AutoOnV1", "KF_C08_2", ToJson(in)>>)
-         /\ HasNeg(f) => \A in \in MixedInputs(f, 1) : ~Rejected(in) => PrintT(<<"KFHIT", "AutoOnMixed", "KF_C08_1", ToJson(in)>>))
+         /\ LET want == Ok(CnfTT(f, SS)) IN \A in \in V1Inputs(f) :
+                (AutoRun(in, SS) # want /\ KF_C08_2(in)) => PrintT(<<"KFHIT", "AutoOnV1", "KF_C08_2", ToJson(in)>>)
+         /\ HasNeg(f) => \A in \in MixedInputs(f, 1) :
+                (~Rejected(in) /\ KF_C08_1(in)) => PrintT(<<"KFHIT", "AutoOnMixed", "KF_C08_1", ToJson(in)>>))
    /\ OnV2(t.op = "lit" => \A in \in V2Inputs(t) :
-         (IsPureV2(in) /\ ~AutoV2(in)) => PrintT(<<"KFHIT", "AutoOnV2", "KF_C08_3", ToJson(in)>>))
+         (IsPureV2(in) /\ ~AutoV2(in) /\ KF_C08_3(in)) => PrintT(<<"KFHIT", "AutoOnV2", "KF_C08_3", ToJson(in)>>))
 
 \* ---------------------------------------------------------------- emission
 RECURSIVE SumSeq(_)
@@ -132,7 +135,6 @@ NamesTwo      == {<<"a">>, <<"b">>}
 Univ          == << <<"a">>, <<"b">>, <<"n","o","r">>, <<"x","-","y">>, <<"a"," ","b">> >>
 UnivSmall     == << <<"a">>, <<"b">>, <<"n","o","r">> >>
 OpsPlain      == {<<"a">>, <<"b">>}
-OneStyle      == {4}
 AllStyles     == 1..NStyles
 TwoStyles     == {4, 5}
 OpsV2         == {<<"a">>, <<"b">>, <<"x","-","y">>, <<"a","*">>, <<"a","\\"," ","b">>}
